@@ -172,6 +172,15 @@ func (c *Counter) Add(n int64) {
 					state = c.state.load()
 				}
 				debugPrintf("Add %q += %d: nil extra=%d\n", c.name, n, state.extra())
+				if c.file.current.Load() != nil {
+					// A counter file is open, so the nil pointer is stale:
+					// this counter missed the invalidation that followed the
+					// opening (it was not yet on the file's list, see
+					// file.register). Clear havePtr so that the last reader
+					// looks the pointer up and flushes extra.
+					c.invalidate()
+					state = c.state.load()
+				}
 			} else {
 				sum := c.add(uint64(n))
 				debugPrintf("Add %q += %d: count=%d\n", c.name, n, sum)
@@ -257,6 +266,11 @@ func (c *Counter) releaseLock(state counterStateBits) {
 			}
 		}
 
+		if state.extra() != 0 && c.ptr.count == nil && c.file.current.Load() != nil {
+			// The pointer was looked up before a counter file was opened
+			// and this counter missed the invalidation (see Add).
+			c.ptr = c.file.lookup(c.name)
+		}
 		if extra := state.extra(); extra != 0 && c.ptr.count != nil {
 			if !c.state.update(&state, state.clearExtra()) {
 				continue
